@@ -235,8 +235,18 @@ Definition wf (i : input) : bool :=
   && nodup_str (flat_map st_scopes (i_policy i))
   && match i_scheme i with SOther => false | _ => true end.
 
+(* the trust store value <type>:<name> *)
+Definition store_value (ty name : string) : string := ty ++ String colon name.
+Definition is_x509 (s : scheme) : bool := match s with SX509 => true | _ => false end.
+
 (* ---------- the property oracle, on observations only ----------
-   Written independently of the loops above: find/filter/first-occurrence lists. *)
+   Written independently of the loops above: find/filter/first-occurrence lists.
+   It checks what the property is about: authenticity passes exactly when the
+   declarative condition holds (every listed store of the scheme's type loads and one of
+   them holds a chain certificate), a failure under "enforce" ends the verification, and
+   the trust store is asked only for stores the applicable statement lists, of the
+   scheme's type (or tsa, on the timestamp path). The exact failure class and the exact
+   call sequence are compared by the correspondence (model vs implementation). *)
 
 (* the applicable statement: the one scoped to the repository, else the wildcard one *)
 Definition applicable (policy : list stmt) (repo : string) : option stmt :=
@@ -287,6 +297,11 @@ Definition expected_auth (i : input) (ty : string) (stores : list string) : acla
 Definition expected_calls (fs : fsys) (ty : string) (stores : list string) : list call :=
   map (fun n => (ty, n)) (upto_err fs ty (uniq (names_of_type ty stores))).
 
+Definition call_allowed (i : input) (st : stmt) (ty : string) (stopped : bool) (k : call) : bool :=
+  mem_str (store_value (fst k) (snd k)) (st_stores st)
+  && (String.eqb (fst k) ty
+      || (String.eqb (fst k) ty_tsa && negb stopped && is_x509 (i_scheme i) && i_token i && st_ts st)).
+
 Definition spec_ok (i : input) (o : obs) : bool :=
   match applicable (i_policy i) (i_repo i) with
   | None => match o_auth o, o_calls o with None, [] => negb (o_stop o) | _, _ => false end
@@ -298,13 +313,9 @@ Definition spec_ok (i : input) (o : obs) : bool :=
       match o_auth o with
       | None => false
       | Some c =>
-          aclass_eqb c (expected_auth i ty (st_stores st))
+          Bool.eqb (is_pass c) (is_pass (expected_auth i ty (st_stores st)))
           && Bool.eqb (o_stop o) ((match a with Enforce => true | _ => false end) && negb (is_pass c))
-          && list_eqb key_eqb (o_calls o)
-               (expected_calls (i_fs i) ty (st_stores st)
-                ++ (if negb (o_stop o) && (match i_scheme i with SX509 => true | _ => false end)
-                       && i_token i && st_ts st
-                    then expected_calls (i_fs i) ty_tsa (st_stores st) else []))
+          && forallb (call_allowed i st ty (o_stop o)) (o_calls o)
       end
     | _, None => false     (* excluded by wf *)
     end
